@@ -42,11 +42,11 @@ theorem RTSafe.good (hS : ScalarRT E) (hD : DynId dyn N) : (c : Conv) → RTSafe
   | .datetime _, _ => rt_datetime hS
   | .seq kind vc, h => by
     simp only [RTSafe, Bool.and_eq_true] at h
-    exact rt_seq h.1 (RTSafe.good hS hD vc h.2)
+    exact rt_seq hS.noElemHook h.1 (RTSafe.good hS hD vc h.2)
   | .tuple cs, h => rt_tuple (RTSafe.goods hS hD cs (by simpa only [RTSafe] using h))
   | .dict _ k v, h => by
     simp only [RTSafe, Bool.and_eq_true] at h
-    exact rt_dict (IdSer.good hS.toNumRT hD k h.1) (RTSafe.good hS hD v h.2)
+    exact rt_dict hS.noElemHook (IdSer.good hS.toNumRT hD k h.1) (RTSafe.good hS hD v h.2)
   | .cond inner _ _, h => rt_cond (RTSafe.good hS hD inner (by simpa only [RTSafe] using h))
   | .union cs, h => rt_union (RTSafe.goods hS hD cs (by simpa only [RTSafe] using h))
   | .pane info cs, h => by
@@ -131,12 +131,13 @@ end
 /-! ## The untyped serialiser on interchange data -/
 
 /-- on interchange data (never an instance of a scalar subclass) `dynElem` is the untyped serialiser -/
-theorem dynElem_data (E : Ext) (dyn : Val → Except Exc Val) (x : Val) (hx : x.isData = true) :
+theorem dynElem_data (E : Ext) (hE : NoElemHook E) (dyn : Val → Except Exc Val) (x : Val) (hx : x.isData = true) :
     dynElem E dyn x = dyn x := by
+  rw [dynElem_noHook hE]
   cases x <;> first | rfl | (simp [Val.isData] at hx)
 
 /-- loop body of the mapping case of `intoDynF` (named) -/
-theorem intoDynF_data (E : Ext) (classes : List (String × Conv)) (enums : List (String × List Val)) :
+theorem intoDynF_data (E : Ext) (hE : NoElemHook E) (classes : List (String × Conv)) (enums : List (String × List Val)) :
     ∀ (n : Nat) (v : Val), v.isData = true → v.depth < n → intoDynF E classes enums n v = .ok v
   | 0, _, _, h => by cases h
   | n + 1, v, hv, hd => by
@@ -144,15 +145,15 @@ theorem intoDynF_data (E : Ext) (classes : List (String × Conv)) (enums : List 
     | list xs =>
       simp only [Val.isData] at hv; simp only [Val.depth] at hd
       simp only [intoDynF]
-      rw [exMapM_id xs (fun y hy => (dynElem_data E _ y (Val.allData_iff.1 hv y hy)).trans
-        (intoDynF_data E classes enums n y (Val.allData_iff.1 hv y hy)
+      rw [exMapM_id xs (fun y hy => (dynElem_data E hE _ y (Val.allData_iff.1 hv y hy)).trans
+        (intoDynF_data E hE classes enums n y (Val.allData_iff.1 hv y hy)
           (Nat.lt_of_le_of_lt (Val.depth_le_depthList hy) (Nat.lt_of_succ_lt_succ hd))))]
       rfl
     | tuple xs =>
       simp only [Val.isData] at hv; simp only [Val.depth] at hd
       simp only [intoDynF]
-      rw [exMapM_id xs (fun y hy => (dynElem_data E _ y (Val.allData_iff.1 hv y hy)).trans
-        (intoDynF_data E classes enums n y (Val.allData_iff.1 hv y hy)
+      rw [exMapM_id xs (fun y hy => (dynElem_data E hE _ y (Val.allData_iff.1 hv y hy)).trans
+        (intoDynF_data E hE classes enums n y (Val.allData_iff.1 hv y hy)
           (Nat.lt_of_le_of_lt (Val.depth_le_depthList hy) (Nat.lt_of_succ_lt_succ hd))))]
       rfl
     | dict kvs =>
@@ -160,15 +161,15 @@ theorem intoDynF_data (E : Ext) (classes : List (String × Conv)) (enums : List 
       obtain ⟨⟨hkv, hh⟩, hdist⟩ := hv
       have hde : ∀ x : Val, x.isData = true → dynElem E (intoDynF E classes enums n) x = intoDynF E classes enums n x := by
         intro x hx
-        cases x <;> first | rfl | (simp [Val.isData] at hx)
+        exact dynElem_data E hE _ x hx
       have hone : exMapM (dictOne (dynElem E (intoDynF E classes enums n)) (dynElem E (intoDynF E classes enums n))) kvs = .ok kvs := by
         have : ∀ p ∈ kvs, dictOne (dynElem E (intoDynF E classes enums n)) (dynElem E (intoDynF E classes enums n)) p = .ok p := by
           intro p hp
           have hp' := Val.allDataKV_iff.1 hkv p hp
           have hdp := Val.depth_le_depthKV hp
           have hlt := Nat.lt_of_succ_lt_succ hd
-          simp only [dictOne, hde p.1 hp'.1, hde p.2 hp'.2, intoDynF_data E classes enums n p.1 hp'.1 (Nat.lt_of_le_of_lt hdp.1 hlt),
-            intoDynF_data E classes enums n p.2 hp'.2 (Nat.lt_of_le_of_lt hdp.2 hlt), Except.map]
+          simp only [dictOne, hde p.1 hp'.1, hde p.2 hp'.2, intoDynF_data E hE classes enums n p.1 hp'.1 (Nat.lt_of_le_of_lt hdp.1 hlt),
+            intoDynF_data E hE classes enums n p.2 hp'.2 (Nat.lt_of_le_of_lt hdp.2 hlt), Except.map]
         clear hkv hh hdist hd
         induction kvs with
         | nil => rfl
@@ -187,8 +188,8 @@ theorem intoDynF_data (E : Ext) (classes : List (String × Conv)) (enums : List 
     | set _ | frozenset _ | deque _ | mapOf _ _ | «opaque» _ _ | enumMem _ _ | sub _ _ | obj _ _ _ | wrap _ _ =>
       simp only [Val.isData] at hv; cases hv
 
-theorem intoDynF_dynId (E : Ext) (classes : List (String × Conv)) (enums : List (String × List Val)) (n : Nat) :
+theorem intoDynF_dynId (E : Ext) (hE : NoElemHook E) (classes : List (String × Conv)) (enums : List (String × List Val)) (n : Nat) :
     DynId (intoDynF E classes enums n) n :=
-  fun v hv hd => intoDynF_data E classes enums n v hv hd
+  fun v hv hd => intoDynF_data E hE classes enums n v hv hd
 
 end PaneModel
